@@ -185,6 +185,25 @@ def curated():
     out.append(D("nest-outer-exactlyk", [c2, d2, fac("g", ["u", "v"])], nest(cross(["c", "g"], ["c"], [["ExactlyK", 1, "g", "u"]]), cross(["d"], ["d"])), ["nest", "outer-constraint", "exactlyk"]))
     out.append(D("nest-nest", [c2, d2, fac("g", ["u", "v"])], nest(nest(cross(["c"], ["c"]), cross(["d"], ["d"])), cross(["g"], ["g"])), ["nest", "nest-nest"]))
     out.append(D("nest-nest-right", [c2, d2, fac("g", ["u", "v"])], nest(cross(["c"], ["c"]), nest(cross(["d"], ["d"]), cross(["g"], ["g"]))), ["nest", "nest-nest"]))
+    out.append(D("nest-inner-mintrials4", [c2, d2], nest(cross(["c"], ["c"]), cross(["d"], ["d"], [["MinimumTrials", 4]])), ["nest", "mintrials"]))
+    out.append(D("nest-inner-mintrials6-of3", [c2, f3], nest(cross(["c"], ["c"]), cross(["f"], ["f"], [["MinimumTrials", 6]])), ["nest", "mintrials"]))
+    out.append(D("nest-inner-uncrossed-mintrials", [c2, d2, fac("g", ["u", "v"])], nest(cross(["c"], ["c"]), cross(["d", "g"], ["d"], [["MinimumTrials", 4]])), ["nest", "mintrials"]))
+    # --- weighted crossings with trailing partial chunks (weight x partial tail longer than the weight)
+    fw = fac("f", [["a", 2], ["b", 1]])
+    lw = fac("l", [["a", 1], ["b", 2], ["c", 1]])
+    out.append(D("w-repeat-partial5", [fw], repeat(cross(["f"], ["f"]), [["MinimumTrials", 5]]), ["weight", "repeat", "partial"]))
+    out.append(D("w-cross-mintrials5", [fw], cross(["f"], ["f"], [["MinimumTrials", 5]]), ["weight", "mintrials", "partial"]))
+    out.append(D("w-repeat-partial7-of4", [lw], repeat(cross(["l"], ["l"]), [["MinimumTrials", 7]]), ["weight", "repeat", "partial"]))
+    out.append(D("w-cross-mintrials7-of4", [lw], cross(["l"], ["l"], [["MinimumTrials", 7]]), ["weight", "mintrials", "partial"]))
+    out.append(D("w-cross-mintrials7-pins", [lw], cross(["l"], ["l"], [["MinimumTrials", 7], ["Pin", 0, "l", "b"], ["Pin", 1, "l", "b"], ["Pin", 2, "l", "b"], ["Pin", 3, "l", "b"]]), ["weight", "mintrials", "partial", "pin"]))
+    out.append(D("w-merge-2v-weighted3", [c2, fw], merge([cross(["c"], ["c"]), cross(["f"], ["f"])], mode="weight"), ["weight", "merge"]))
+    out.append(D("w-merge-2v-weighted3-repeat", [c2, lw], merge([cross(["c"], ["c"]), cross(["l"], ["l"])], [["MinimumTrials", 7]], mode="repeat"), ["weight", "merge", "partial"]))
+    out.append(D("w2-derived-crossed", [c2, fac("w", A2), {"name": "k", "levels": [["same", 2], ["diff", 1]], "derive": within_eq("k", "c", "w", A2, A2)["derive"]}],
+                 cross(["c", "w", "k"], ["k"]), ["weight", "within", "derived-crossed"]))
+    out.append(D("w2-derived-crossed-repeat5", [c2, fac("w", A2), {"name": "k", "levels": [["same", 2], ["diff", 1]], "derive": within_eq("k", "c", "w", A2, A2)["derive"]}],
+                 repeat(cross(["c", "w", "k"], ["k"]), [["MinimumTrials", 5]]), ["weight", "within", "derived-crossed", "repeat", "partial"]))
+    # --- wide windows in the crossing (two preamble trials) with several basic factors
+    out.append(D("window3-crossed-2basic", [c2, d2, window_last("v", "c", A2, 3)], cross(["c", "d", "v"], ["c", "v"]), ["window", "derived-crossed", "preamble", "preamble2"]))
     # --- LatinSquare
     out.append(D("latin-2x2", [c2, d2], cross(["c", "d"], ["c", "d"], [["LatinSquare", ["c", "d"]]]), ["latin"]))
     out.append(D("latin-3x3", [e3, f3], cross(["e", "f"], ["e", "f"], [["LatinSquare", ["e", "f"]]]), ["latin"]))
